@@ -54,6 +54,14 @@ MC_CONFIGS = {
     "canary_manual_q": mc("MC_canary", "SpecCanary", strat="MC_StratManual", env=0, edit=1, ann=1, agecap=1),
 }
 
+def raw(module, spec, constants, view):
+    return dict(module=module, spec=spec, raw=constants, view=view)
+
+# SettingsSys.tla: the ExtendedDaemonsetSetting controller (settings x nodes x groups, operation budget, creation instants)
+MC_CONFIGS["settings_q"] = raw("SettingsSys", "SSpec", '  SetSeq <- MC_SetSeq2\n  SNodeSeq <- MC_SNodeSeq\n  GroupSet = {"g1", "g2"}\n  Both <- MC_Both\n  SOpBudget = 4\n  ClockMax = 1\n', "sview")
+MC_CONFIGS["settings_t"] = raw("SettingsSys", "SSpec", '  SetSeq <- MC_SetSeq\n  SNodeSeq <- MC_SNodeSeq\n  GroupSet = {"g1", "g2"}\n  Both <- MC_Both\n  SOpBudget = 4\n  ClockMax = 2\n', "sview")
+MC_CONFIGS["settings_live_q"] = raw("SettingsSys", "SLiveSpec", '  SetSeq <- MC_SetSeq2\n  SNodeSeq <- MC_SNodeSeq\n  GroupSet = {"g1", "g2"}\n  Both <- MC_Both\n  SOpBudget = 3\n  ClockMax = 1\n', "sview")
+
 # liveness (design level): (config, SPECIFICATION, temporal property)
 LIVE_CONFIGS = {
     "live_rollout_q": (mc("MC_rollout", "LiveSpec", env=0, edit=1, ann=0), "L_C02"),
@@ -64,7 +72,9 @@ LIVE_CONFIGS = {
     "live_c07_q": (mc("MC_canary", "LiveSpecCanary", strat="MC_StratFailFast", env=1, edit=1, ann=0, agecap=2, kinds='{"restart"}'), "L_C07"),
     "live_c07_t": (mc("MC_canary", "LiveSpecCanary", strat="MC_StratFailFast", env=1, edit=1, ann=1, agecap=2, kinds='{"restart", "fail"}'), "L_C07"),
 }
+LIVE_CONFIGS["settings_live_q"] = (MC_CONFIGS["settings_live_q"], "SL_Settle")
 LIVE = {
+    "C18": {"quick": ["settings_live_q"], "thorough": ["settings_live_q"]},
     "C02": {"quick": ["live_rollout_q", "live_canary_q"], "thorough": ["live_rollout_t", "live_canary_t"]},
     "C07": {"quick": ["live_fine_q"], "thorough": ["live_fine_q", "live_c07_t"]},
     "C11": {"quick": ["live_fine_q"], "thorough": ["live_fine_q"]},
@@ -87,6 +97,7 @@ MC = {
     "C02": {"quick": [("rollout_q", [], ["TypeOK"])], "thorough": [("rollout_t", [], ["TypeOK"])]},
     "C10": {"quick": [("rollout_q", ["M_C10"], [])], "thorough": [("rollout_t", ["M_C10"], [])]},
     "C12": {"quick": [("rollout_q", ["M_C12"], [])], "thorough": [("rollout_t", ["M_C12"], [])]},
+    "C18": {"quick": [("settings_q", ["SM_C18", "SM_Conf"], ["SI_C18", "SI_Valid", "STypeOK"])], "thorough": [("settings_t", ["SM_C18", "SM_Conf"], ["SI_C18", "SI_Valid", "STypeOK"])]},
 }
 
 # ---- B3: vector generators (module, constants of the cfg per tier, formulas that judge the recorded steps) ----
@@ -113,6 +124,7 @@ FN = {
 
 # ---- binding B2: which Sched_<name>.cfg provides the simulated behaviours replayed into the real code
 SCHED = {p: "canary" for p in ("C01", "C02", "C03", "C04", "C05", "C07", "C08", "C09", "C12", "C13", "C14", "C15")}
+SCHED.update({"C18": "settings", "C10": "settings"})   # behaviours of SettingsSys.tla (settings controller + replica-set sync)
 
 # ---- fault enumeration: scenarios per tier; formulas judged on the faulted runs ----
 FAULTS = {
